@@ -14,10 +14,10 @@ PINNED=$(ctest --test-dir $WT/_build -j8 2>&1 | grep -E "tests passed|tests fail
 echo "pinned with change: $PINNED"
 $BUILD 2> $WT/demo/build.err || { echo "demo build failed (with change)"; tail -3 $WT/demo/build.err; exit 1; }
 $WT/demo/demo > $WT/demo/out_with.txt 2>&1; RC_WITH=$?
-git stash -q
-$BUILD 2> $WT/demo/build.err || { echo "demo build failed (without change)"; git stash pop -q; exit 1; }
+git apply -R $OUT/patch.diff   # worktree-local (git stash is shared by all worktrees of a repository)
+$BUILD 2> $WT/demo/build.err || { echo "demo build failed (without change)"; git apply $OUT/patch.diff; exit 1; }
 $WT/demo/demo > $WT/demo/out_without.txt 2>&1; RC_WITHOUT=$?
-git stash pop -q
+git apply $OUT/patch.diff
 echo "demo with change: rc=$RC_WITH  $(tail -2 $WT/demo/out_with.txt | tr '\n' ' ' | cut -c1-200)"
 echo "demo without change: rc=$RC_WITHOUT  $(tail -1 $WT/demo/out_without.txt | cut -c1-200)"
 rm -rf $WT/_build
